@@ -12,6 +12,10 @@ OUT="$V/work/seeded_matrix.txt"; mkdir -p "$V/work"; : > "$OUT"
 cd "$REPO" || exit 2
 for d in "$V"/seeded/*/; do
   name=$(basename "$d"); prop=${name%%-*}
+  # ONLY="C19 C20 X" restricts the run to seeded changes whose name starts with one of the given prefixes
+  if [ -n "${ONLY:-}" ]; then keep=0; for pre in $ONLY; do case "$name" in $pre*) keep=1;; esac; done; [ $keep = 1 ] || continue; fi
+  # free-choice changes (X<n>-m<k>) name the property they break in meta.json
+  case "$prop" in X*) prop=$(python3 -c "import json;print(json.load(open('$d/meta.json'))['property'][:3])");; esac
   git checkout -q -- . ; git apply "$d/patch.diff" || { echo "$name APPLY-FAILED" | tee -a "$OUT"; continue; }
   out=$(cd "$V" && timeout 1500 ./check "$prop" quick 2>&1); rc=$?
   first=$(echo "$out" | grep -m1 "detail:" | cut -c1-200)
